@@ -198,6 +198,11 @@ class _Frame:
                     if hn not in out:
                         out.append(hn)
                     break
+                # a handler naming a subclass of e takes some of the exceptions e stands for;
+                # the others travel on
+                if any(self.effects.is_sub(t, e) for t in types):
+                    if hn not in out:
+                        out.append(hn)
             else:
                 rest.add(e)
         for t in self.parent.targets(rest):
